@@ -459,6 +459,55 @@ pub fn files(_args: &Args, rep: &mut Report, _child: bool) {
     rep.notes.push("built without the mmap feature: file methods not explored".into());
 }
 
+/// Single large buffers through every entry point (a cap on how much one call absorbs would only show
+/// here): Write::write (must report and absorb the whole buffer), write_all, io::copy, update_reader.
+fn large_buffers(rep: &mut Report, thorough: bool) {
+    let mut sizes: Vec<(usize, usize)> = vec![((1 << 20), 16 * (1 << 20) + 1), ((1 << 22), 16 * (1 << 22) + 3149)];
+    if thorough {
+        sizes.push(((1 << 24), 16 * (1 << 24) + 65));
+    }
+    let max = sizes.iter().map(|s| s.1).max().unwrap();
+    let data = vcommon::stream_b(11, max);
+    let m = ModeSpec::Keyed(*vcommon::TEST_KEY);
+    for (sub, n) in sizes {
+        let exp = b3spec::node_parallel16(&m.spec(), &data[..n], sub).root_bytes(0, 32);
+        let runs: Vec<(&str, Box<dyn Fn() -> io::Result<(u64, u64, [u8; 32])> + '_>)> = vec![
+            ("Write::write", Box::new(|| {
+                let mut h = m.hasher();
+                let r = io::Write::write(&mut h, &data[..n])? as u64;
+                Ok((r, h.count(), *h.finalize().as_bytes()))
+            })),
+            ("Write::write_all", Box::new(|| {
+                let mut h = m.hasher();
+                io::Write::write_all(&mut h, &data[..n])?;
+                Ok((n as u64, h.count(), *h.finalize().as_bytes()))
+            })),
+            ("io::copy", Box::new(|| {
+                let mut h = m.hasher();
+                let r = io::copy(&mut io::Cursor::new(&data[..n]), &mut h)?;
+                Ok((r, h.count(), *h.finalize().as_bytes()))
+            })),
+            ("update_reader", Box::new(|| {
+                let mut h = m.hasher();
+                h.update_reader(io::Cursor::new(&data[..n]))?;
+                Ok((n as u64, h.count(), *h.finalize().as_bytes()))
+            })),
+        ];
+        for (name, f) in runs {
+            rep.inc("evaluations");
+            rep.inc("distinct_nontrivial");
+            rep.inc("spec_comparisons");
+            rep.inc("large_buffer_calls");
+            let r = vcommon::catch(|| f());
+            match r {
+                Ok(Ok((ret, cnt, h))) if ret == n as u64 && cnt == n as u64 && h[..] == exp[..] => {}
+                other => rep.violation("large-buffer:wrong-result", format!("{} with one buffer of {} bytes: returned / absorbed / digest wrong: {:?}", name, n, other.map(|x| x.map(|y| (y.0, y.1)).map_err(|e| e.to_string()))),
+                    json!({"property": "C11", "engine": "core/adapters", "subject": name, "large_buffer": n, "check": "large-buffer:wrong-result"})),
+            }
+        }
+    }
+}
+
 fn io_copy_checks(rep: &mut Report) {
     // std::io::copy into the Write impl, and write_all, consume every buffer completely
     let data = vcommon::stream_a(300_000);
@@ -500,6 +549,7 @@ pub fn run(args: &Args, rep: &mut Report) {
     });
     rep.merge(r);
     io_copy_checks(rep);
+    large_buffers(rep, args.thorough());
     files(args, rep, false);
     // the same file sweep with mmap forced to fail (drives the rewind-and-read fallback)
     #[cfg(feature = "mmap")]
@@ -547,6 +597,14 @@ pub fn run(args: &Args, rep: &mut Report) {
 }
 
 pub fn replay(v: &Value) -> bool {
+    if v["large_buffer"].is_u64() {
+        let mut rep = Report::new(&Args { prop: "C11".into(), tier: "quick".into(), seed: 1, report: String::new(), replay: None, jobs: 1, extra: Default::default() }, "replay", "fault_enumeration");
+        large_buffers(&mut rep, false);
+        for x in rep.violations.iter().take(3) {
+            println!("violation {}: {}", x.key, x.summary);
+        }
+        return !rep.violations.is_empty();
+    }
     if v["script"].is_array() {
         let mode = ModeSpec::from_json(&v["mode"]);
         let len = v["stream_len"].as_u64().unwrap_or(0) as usize;
